@@ -903,4 +903,140 @@ theorem neg_wf (n : Nat) (Q : PB) (hQ : WF n Q) :
   exact mk_wf n true _ _ hw
 
 
+/-! ## independence with a constant operand on the right -/
+
+theorem cartesian_const_right (op : Rat → Rat → Rat) (n : Nat) (a : Rat) (q : List Rat) :
+    cartesian op q (List.replicate n a) = q.flatMap (fun x => List.replicate n (op x a)) := by
+  unfold cartesian
+  simp only [List.map_replicate]
+
+theorem zip4_replicate_append (f : Rat → Rat → Rat → Rat → Rat) (n : Nat) (p q r s : Rat) (T1 T2 T3 T4 : List Rat) :
+    zip4 f (List.replicate n p ++ T1) (List.replicate n q ++ T2) (List.replicate n r ++ T3) (List.replicate n s ++ T4) =
+      List.replicate n (f p q r s) ++ zip4 f T1 T2 T3 T4 := by
+  induction n with
+  | zero => simp
+  | succ k ih => simp only [List.replicate_succ, List.cons_append, zip4, ih]
+
+/-- focal sums of every step of `Q` with the constant interval, `n` copies each, already in order -/
+theorem corners_const_right (n : Nat) (a b : Rat) (hab : a ≤ b) : ∀ (ql qr : List Rat), List.Forall₂ (· ≤ ·) ql qr →
+    zip4 min4 (ql.flatMap (fun x => List.replicate n (x + a))) (ql.flatMap (fun x => List.replicate n (x + b)))
+      (qr.flatMap (fun x => List.replicate n (x + a))) (qr.flatMap (fun x => List.replicate n (x + b))) =
+      ql.flatMap (fun x => List.replicate n (x + a)) ∧
+    zip4 max4 (ql.flatMap (fun x => List.replicate n (x + a))) (ql.flatMap (fun x => List.replicate n (x + b)))
+      (qr.flatMap (fun x => List.replicate n (x + a))) (qr.flatMap (fun x => List.replicate n (x + b))) =
+      qr.flatMap (fun x => List.replicate n (x + b))
+  | _, _, .nil => by simp [zip4]
+  | _, _, .cons (a := x) (b := y) hxy htl => by
+    obtain ⟨ih1, ih2⟩ := corners_const_right n a b hab _ _ htl
+    obtain ⟨e1, e2⟩ := focal_add_exact x y a b hxy hab
+    simp only [List.flatMap_cons, zip4_replicate_append, ih1, ih2]
+    have m1 : min4 (x + a) (x + b) (y + a) (y + b) = x + a := by
+      unfold min4
+      rw [min_eq_left (by linarith : x + a ≤ x + b), min_eq_left (by linarith : x + a ≤ y + a),
+        min_eq_left (by linarith : x + a ≤ y + b)]
+    have m2 : max4 (x + a) (x + b) (y + a) (y + b) = y + b := by
+      unfold max4
+      exact max_eq_right (max_le (max_le (by linarith) (by linarith)) (by linarith))
+    rw [m1, m2]; exact ⟨rfl, rfl⟩
+
+theorem pairwise_blocks (n : Nat) (c : Rat) (q : List Rat) (hq : q.Pairwise (· ≤ ·)) :
+    (q.flatMap (fun x => List.replicate n (x + c))).Pairwise (· ≤ ·) := by
+  rw [List.pairwise_flatMap]
+  refine ⟨fun x _ => List.pairwise_replicate.mpr (Or.inr (le_refl _)), ?_⟩
+  refine hq.imp ?_
+  intro x y hxy u hu v hv
+  rw [List.eq_of_mem_replicate hu, List.eq_of_mem_replicate hv]; linarith
+
+theorem forall₂_blocks (n : Nat) (a b : Rat) (hab : a ≤ b) : ∀ (ql qr : List Rat), List.Forall₂ (· ≤ ·) ql qr →
+    List.Forall₂ (· ≤ ·) (ql.flatMap (fun x => List.replicate n (x + a))) (qr.flatMap (fun x => List.replicate n (x + b)))
+  | _, _, .nil => List.Forall₂.nil
+  | _, _, .cons (a := x) (b := y) hxy htl => by
+    simp only [List.flatMap_cons]
+    exact List.rel_append (forall₂_replicate n _ _ (by linarith)) (forall₂_blocks n a b hab _ _ htl)
+
+theorem blocks_getElem? (n : Nat) (f : Rat → Rat) : ∀ (q : List Rat) (k r : Nat) (hk : k < q.length) (hr : r < n),
+    (q.flatMap (fun x => List.replicate n (f x)))[k * n + r]? = some (f q[k])
+  | x :: t, 0, r, _, hr => by
+    simp only [List.flatMap_cons, Nat.zero_mul, Nat.zero_add, List.getElem_cons_zero]
+    rw [List.getElem?_append_left (by simpa using hr)]
+    simp [List.getElem?_replicate, hr]
+  | x :: t, k + 1, r, hk, hr => by
+    simp only [List.flatMap_cons, List.getElem_cons_succ]
+    have e : (k + 1) * n + r = n + (k * n + r) := by ring
+    rw [e, List.getElem?_append_right (by simp)]
+    simp only [List.length_replicate, Nat.add_sub_cancel_left]
+    exact blocks_getElem? n f t k r (by simpa using hk) hr
+
+theorem blocks_length (n : Nat) (f : Rat → Rat) : ∀ (q : List Rat),
+    (q.flatMap (fun x => List.replicate n (f x))).length = q.length * n
+  | [] => by simp
+  | x :: t => by simp [List.flatMap_cons, blocks_length n f t, Nat.succ_mul, Nat.add_comm]
+
+theorem condenseIdx_sq (n k : Nat) (hn : 2 ≤ n) : condenseIdx (n * n) n k = k * n + k := by
+  unfold condenseIdx
+  have h1 : ¬ n ≤ 1 := by omega
+  simp only [h1, if_false]
+  have h2 : n * n - 1 = (n + 1) * (n - 1) := by
+    obtain ⟨m, rfl⟩ : ∃ m, n = m + 2 := ⟨n - 2, by omega⟩
+    have e1 : m + 2 - 1 = m + 1 := by omega
+    have e2 : (m + 2) * (m + 2) = (m + 2 + 1) * (m + 1) + 1 := by ring
+    rw [e1, e2]; omega
+  rw [h2, ← Nat.mul_assoc, Nat.mul_div_cancel _ (by omega : 0 < n - 1)]
+  ring
+
+/-- condensing `n` blocks of `n` equal values back to `n` steps returns one value per block -/
+theorem boundSteps_blocks (f : Rat → Rat) (q : List Rat) (hn : 0 < q.length) :
+    boundSteps q.length (q.flatMap (fun x => List.replicate q.length (f x))) = .ok (q.map f) := by
+  set n := q.length with hnq
+  unfold boundSteps
+  rw [blocks_length]
+  by_cases h2 : 2 ≤ n
+  · have hgt : n * n > n := by nlinarith
+    simp only [← hnq, hgt, if_true]
+    congr 1
+    unfold condense
+    apply List.ext_getElem
+    · simp [hnq]
+    · intro k h1 h2'
+      have hk : k < n := by simpa using h1
+      simp only [List.getElem_map, List.getElem_range, blocks_length, ← hnq, condenseIdx_sq n k h2]
+      rw [List.getD_eq_getElem?_getD, blocks_getElem? n f q k k (by omega) hk]
+      rfl
+  · have h1 : n = 1 := by omega
+    simp only [← hnq, h1, Nat.mul_one, gt_iff_lt, lt_irrefl, if_false]
+    obtain ⟨x, hx⟩ : ∃ x, q = [x] := List.length_eq_one_iff.mp (by omega)
+    subst hx; simp
+
+/-- **anything + interval under independence**: the `n²` focal sums condense back to `Q` shifted -/
+theorem add_const_right_i (Q : PB) (hn : 0 < Q.left.length) (hQ : WF Q.left.length Q) (a b : Rat) (hab : a ≤ b) :
+    add Q.left.length .i Q (ofIvl Q.left.length a b) = .ok ⟨Q.left.map (a + ·), Q.right.map (b + ·)⟩ := by
+  set n := Q.left.length with hnq
+  have hrl : Q.right.length = n := hQ.rlen
+  obtain ⟨c1, c2⟩ := corners_const_right n a b hab Q.left Q.right hQ.le
+  simp only [add, independentOp, cornersSorted, ofIvl, cartesian_const_right, c1, c2]
+  rw [sortR_of_sorted _ (pairwise_blocks n a Q.left hQ.lsorted), sortR_of_sorted _ (pairwise_blocks n b Q.right hQ.rsorted)]
+  have hle := forall₂_blocks n a b hab Q.left Q.right hQ.le
+  have hw := wf_shift n Q hQ a b hab
+  have hsw : ∀ (sw : Bool) (l r : List Rat), (sw = true → l = r) →
+      ((if sw then (r, l) else (l, r)) : List Rat × List Rat) = (l, r) := by
+    intro sw l r hs; cases sw
+    · rfl
+    · rw [hs rfl]; rfl
+  unfold mk
+  simp only [Bool.false_eq_true, if_false]
+  rw [hsw _ _ _ (by
+    intro h
+    split at h
+    · exact allGe_eq_of_le _ _ hle h
+    · cases h)]
+  simp only
+  have b1 := boundSteps_blocks (· + a) Q.left hn
+  have b2 : boundSteps n (Q.right.flatMap (fun x => List.replicate n (x + b))) = .ok (Q.right.map (· + b)) := by
+    have := boundSteps_blocks (· + b) Q.right (by omega)
+    rwa [hrl] at this
+  rw [← hnq] at b1
+  rw [b1, ok_bind, b2, ok_bind, map_add_comm, map_add_comm]
+  simp [hw.llen, hw.rlen, isIncreasing_of_pairwise _ hw.lsorted, isIncreasing_of_pairwise _ hw.rsorted, hQ.llen, hQ.rlen]
+
+
 end Pun.Hier
